@@ -1467,13 +1467,15 @@ func (r *Runtime) RunProgram(p *Program) (result Value, err error) {
 			vm.callStack = vm.callStack[:len(vm.callStack)-1]
 		}
 		if x := recover(); x != nil {
+			// An uncatchable exception or a foreign (non-goja) panic: if control is leaving the Runtime
+			// make it idle again, whatever the host does with the panic.
+			if len(vm.callStack) == 0 {
+				vm.prg = nil
+				vm.sb = -1
+				r.leaveAbrupt()
+			}
 			if ex := asUncatchableException(x); ex != nil {
 				err = ex
-				if len(vm.callStack) == 0 {
-					vm.prg = nil
-					vm.sb = -1
-					r.leaveAbrupt()
-				}
 			} else {
 				panic(x)
 			}
@@ -2531,11 +2533,12 @@ func AssertConstructor(v Value) (Constructor, bool) {
 func (r *Runtime) runWrapped(f func()) (err error) {
 	defer func() {
 		if x := recover(); x != nil {
+			// also for a foreign (non-goja) panic: the jobs queued by the aborted call must not run later
+			if len(r.vm.callStack) == 0 {
+				r.leaveAbrupt()
+			}
 			if ex := asUncatchableException(x); ex != nil {
 				err = ex
-				if len(r.vm.callStack) == 0 {
-					r.leaveAbrupt()
-				}
 			} else {
 				panic(x)
 			}
